@@ -88,7 +88,10 @@ func (v SmallByteVecView) Backing() Node {
 }
 
 func (v SmallByteVecView) Copy() (View, error) {
-	return v, nil
+	// a slice: the copy gets its own bytes (UnmarshalText fills a view in place)
+	c := make(SmallByteVecView, len(v), len(v))
+	copy(c, v)
+	return c, nil
 }
 
 func (v SmallByteVecView) ValueByteLength() (uint64, error) {
